@@ -81,6 +81,12 @@ def gen_case(rng, index, tier):
     case['reply'] = reply
     case['trashes'] = [t['rel'] for t in trashes]
     case['extras'] = extras
+    if mode == 'dry' and rng.random() < 0.3:
+        # a terminal / locale that cannot show every name: whatever a dry run
+        # then prints (or refuses to print), it removes nothing
+        case['stdout_encoding'] = rng.choice(['ascii', 'ascii', 'latin-1'])
+        t = rng.choice(trashes)
+        L.add({'p': t['rel'] + '/files/orphan-caf\u00e9\u4e2d-%d' % index, 't': 'f', 'c': 'o'})
     return case
 
 
@@ -114,7 +120,9 @@ def run_case(case):
         s0 = w.snapshot()
         args = base_args(case, w)
         if mode == 'dry':
-            r = run.run(w, 'empty', args + ['--dry-run'], stdin=b'')
+            r = run.run(w, 'empty', args + ['--dry-run'], stdin=b'',
+                        plan={'stdout_encoding': case['stdout_encoding']}
+                        if case.get('stdout_encoding') else None)
         elif mode.startswith('i-'):
             data = b'' if case['reply'] is None else \
                 (case['reply'] + '\n').encode('utf-8')
@@ -144,7 +152,16 @@ def run_case(case):
                 viol('dry-run-changed-something',
                      diff=snap.fmt_diff(changed, 6))
             printed = set()
-            for line in r.outtext().split('\n'):
+            narrow = case.get('stdout_encoding')
+            if narrow:
+                obs['dry_runs_on_a_narrow_stdout'] = 1
+            if narrow and r.exit != 0 and 'UnicodeEncodeError' in r.errtext():
+                obs['unprintable_name_refused'] = 1
+                out['nontrivial'] = True
+                out['verdict'] = 'violation' if out['violations'] else 'ok'
+                return out
+            for line in (r.out.decode(narrow, 'replace') if narrow
+                         else r.outtext()).split('\n'):
                 if line.startswith('would remove '):
                     printed.add(line[len('would remove '):])
             existing = set(p for p in printed
